@@ -101,7 +101,7 @@ REQUIRED = [
     ("geometry_tools/representation.py", "Representation._compose",
      "generator_iterator = self.asym_gens()"),
     ("geometry_tools/representation.py", "Representation.subgroup",
-     "utils.words.formal_inverse("),
+     "                subrep._set_generator("),
     ("geometry_tools/representation.py", "Representation._differential",
      "return utils.zeros((self.dim, self.dim)"),
     ("geometry_tools/representation.py", "Representation.tensor_product",
@@ -1102,6 +1102,40 @@ def wl_wrapping(run, rng, idx):
                       "wrapping/%s/%s" % (which, label),
                       "%s of a wrapped representation: matrix is not a multiple of F(rho(w))"
                       % label, case)
+    # compose with a homomorphism given on wrapped objects
+    g0 = names[0]
+    Cw = Wrap(gens[g0].copy(), column_vectors=True)
+    Cwi = Wrap(tab[g0.upper()].copy(), column_vectors=True)
+    if not hyp:
+        variants = (
+            ("compose(hom_out_wrapped)",
+             lambda: rep.compose(lambda M: Cwi @ Wrap(M, column_vectors=True) @ Cw,
+                                 hom_out_wrapped=True)),
+            ("compose(hom_in_wrapped,hom_out_wrapped)",
+             lambda: rep.compose(lambda T: Cwi @ T @ Cw, hom_in_wrapped=True,
+                                 hom_out_wrapped=True)))
+        for label, build in variants:
+            case = dict(base, derived=label)
+            run.current_case = case
+            try:
+                S = build()
+            except Exception as e:
+                mon.fail("wrapping/%s/exception:%s" % (label, type(e).__name__),
+                         "%s with a homomorphism of Transformation objects raised %s: %s"
+                         % (label, type(e).__name__, str(e)[:100]), case,
+                         tb=traceback.format_exc())
+                continue
+            for tokens in words[3:6]:
+                case = dict(base, derived=label, word="".join(tokens))
+                run.current_case = case
+                T = S["".join(tokens)]
+                ref = tab[g0.upper()] @ rw.evaluate(tokens, tab) @ tab[g0]
+                sc = rw.scale(tokens, norms) * norms[g0] * norms[g0.upper()]
+                sc = sc / max(np.max(np.abs(ref)), 1e-300)
+                mon.judge(proj_residual(np.asarray(T.matrix).T, ref) / max(sc, 1.0), 1e-8,
+                          "wrapping/%s/%s" % (which, label),
+                          "compose with a homomorphism of Transformation objects: matrix is "
+                          "not a multiple of C^-1 rho(w) C", case)
     if hyp:
         for label, S in (("compose(identity)", rep.compose(lambda M: M)),
                          ("gln_adjoint", rep.gln_adjoint())):
@@ -1229,6 +1263,28 @@ def wl_fox(run, rng, idx):
                       "differential(word, generator=g) differs from the image of the Fox derivative",
                       dict(case, generator=g))
         run.note_class("fox", which, kind, n, k, len_bucket(len(tokens)))
+    # utils.words at the level of words / the group ring (exact, discrete)
+    from geometry_tools.utils import words as lw
+    for tokens in words:
+        s = "".join(tokens)
+        case = dict(base, word=s)
+        run.current_case = case
+        mon.require(lw.simplify_word(s) == "".join(rw.free_reduce(tokens)),
+                    "fox/simplify_word", "simplify_word(%r) = %r is not the free reduction %r"
+                    % (s, lw.simplify_word(s), "".join(rw.free_reduce(tokens))), case)
+        mon.require(lw.formal_inverse(s) == "".join(rw.formal_inverse(tokens)),
+                    "fox/formal_inverse", "formal_inverse(%r) = %r" % (s, lw.formal_inverse(s)),
+                    case)
+        for g in names:
+            got = {k: v for k, v in dict(lw.fox_word_derivative(g, s)).items() if v != 0}
+            want = {}
+            for coeff, prefix in rw.fox_terms(tokens, g):
+                key = "".join(rw.free_reduce(prefix))
+                want[key] = want.get(key, 0) + coeff
+            want = {k: v for k, v in want.items() if v != 0}
+            mon.require(got == want, "fox/group-ring-value",
+                        "fox_word_derivative(%r, %r) = %r, expected %r in Z[F]"
+                        % (g, s, got, want), dict(case, generator=g))
     # the empty word: D_g(empty) = 0
     case = dict(base, word="")
     run.current_case = case
@@ -1281,6 +1337,50 @@ def wl_fox(run, rng, idx):
                     "word": "".join(words[4])})
 
 
+def wl_fox_dense(run, rng, idx):
+    """ALL words up to a bounded length: Fox derivatives in Z[F] against the
+    closed form, and the fundamental formula for every word."""
+    from geometry_tools.utils import words as lw
+    mon = run.monitor("fox")
+    k = (2, 1, 3, 2)[idx % 4]
+    L = {1: 8, 2: 5, 3: 4}[k] if run.tier == "thorough" else {1: 7, 2: 4, 3: 3}[k]
+    kind = ("real", "int", "complex")[(idx // 4) % 3]
+    n = 1 + (idx // 2) % 4
+    names = list("abc"[:k])
+    letters = rw.alphabet(names)
+    rep, tab = make_rep(rng, n, names, kind)
+    norms = rw.letter_norms(tab)
+    asym = [g for g in rep.generators if g == g.lower()]
+    I = np.eye(n)
+    stack = np.concatenate([np.asarray(tab[g]).astype(complex) - I for g in asym], axis=0)
+    base = {"kind": kind, "n": n, "generators": {g: tab[g] for g in names}}
+    gmax = max(max(norms[g] for g in letters), 1.0)
+    for tokens in rw.all_words(letters, L):
+        if not tokens:
+            continue
+        s = "".join(tokens)
+        case = dict(base, word=s)
+        run.current_case = case
+        for g in names:
+            got = {kk: v for kk, v in dict(lw.fox_word_derivative(g, s)).items() if v != 0}
+            want = {}
+            for coeff, prefix in rw.fox_terms(tokens, g):
+                key = "".join(rw.free_reduce(prefix))
+                want[key] = want.get(key, 0) + coeff
+            want = {kk: v for kk, v in want.items() if v != 0}
+            mon.require(got == want, "fox/group-ring-value",
+                        "fox_word_derivative(%r, %r) = %r, expected %r in Z[F]"
+                        % (g, s, got, want), dict(case, generator=g))
+        D = _numeric(rep.differential(s))
+        sc = len(tokens) * rw.scale(tokens, norms) * gmax
+        lhs = rw.evaluate(tokens, tab) - I
+        mon.judge(float(np.max(np.abs(D @ stack - lhs))) / sc if D.shape == (n, n * k)
+                  else float("inf"), 1e-8, "fox/fundamental-formula/%s" % kind,
+                  "rho(w) - I != sum_g D_g(w) (rho(g) - I)", case)
+    run.note_class("fox-dense", kind, n, k, L)
+    flush_history(run)
+
+
 def wl_fox_multichar(run, rng, idx):
     """diagnostic only: Fox calculus with multi-character names (not judged)."""
     from geometry_tools.representation import Representation
@@ -1306,12 +1406,13 @@ def wl_fox_multichar(run, rng, idx):
 
 
 WORKLOADS = [
-    Workload("dense-words", wl_dense, quick=14, thorough=320),
-    Workload("random-words", wl_random, quick=60, thorough=2400),
-    Workload("names", wl_names, quick=56, thorough=1120),
-    Workload("reassign", wl_reassign, quick=40, thorough=1600),
-    Workload("derived", wl_derived, quick=25, thorough=1000),
-    Workload("wrapping", wl_wrapping, quick=16, thorough=480),
-    Workload("fox", wl_fox, quick=36, thorough=1200),
+    Workload("dense-words", wl_dense, quick=24, thorough=480),
+    Workload("random-words", wl_random, quick=150, thorough=4000),
+    Workload("names", wl_names, quick=112, thorough=2240),
+    Workload("reassign", wl_reassign, quick=100, thorough=3200),
+    Workload("derived", wl_derived, quick=50, thorough=1500),
+    Workload("wrapping", wl_wrapping, quick=32, thorough=800),
+    Workload("fox", wl_fox, quick=72, thorough=2400),
+    Workload("fox-dense", wl_fox_dense, quick=4, thorough=64),
     Workload("fox-multichar", wl_fox_multichar, quick=1, thorough=16),
 ]
